@@ -146,3 +146,61 @@ def _is_set(e):
         return True
     return isinstance(e, ast.Call) and isinstance(e.func, ast.Name) and \
         e.func.id in ("set", "frozenset")
+
+
+_MUTABLE_CTORS = ("list", "dict", "set", "bytearray", "defaultdict",
+                  "OrderedDict", "deque", "Counter")
+_ITEM_MUTATORS = ("append", "extend", "insert", "remove", "pop", "clear",
+                  "add", "discard", "update", "setdefault", "sort",
+                  "reverse", "popitem", "appendleft")
+
+
+def _mutable_expr(e):
+    if isinstance(e, (ast.List, ast.Dict, ast.Set, ast.ListComp,
+                      ast.DictComp, ast.SetComp)):
+        return True
+    return isinstance(e, ast.Call) and isinstance(e.func, ast.Name) and \
+        e.func.id in _MUTABLE_CTORS
+
+
+def shared_mutable_values(scope):
+    """Containers filled with ONE mutable object under every key / at every
+    position - ``dict.fromkeys(keys, [])``, ``[[]] * n`` - whose entries are
+    then changed in place somewhere in ``scope`` (a function or class):
+    a change made through one entry shows through all of them.  Yields
+    (creating expression, name the container is bound to, mutating call)."""
+    for st in ast.walk(scope):
+        if not (isinstance(st, ast.Assign) and len(st.targets) == 1):
+            continue
+        name = chain(st.targets[0])
+        v = st.value
+        if name is None:
+            continue
+        shared = False
+        if isinstance(v, ast.Call) and isinstance(v.func, ast.Attribute) and \
+                v.func.attr == "fromkeys" and len(v.args) == 2 and \
+                _mutable_expr(v.args[1]):
+            shared = True
+        if isinstance(v, ast.BinOp) and isinstance(v.op, ast.Mult):
+            for a, b in ((v.left, v.right), (v.right, v.left)):
+                if isinstance(a, ast.List) and len(a.elts) >= 1 and any(
+                        _mutable_expr(x) for x in a.elts) and not (
+                        isinstance(b, ast.Constant) and b.value in (0, 1)):
+                    shared = True
+        if not shared:
+            continue
+        for c in ast.walk(scope):
+            # <name>[k].append(...) / <name>[k][j] = ... / <name>[k] += ...
+            if isinstance(c, ast.Call) and isinstance(c.func, ast.Attribute) \
+                    and c.func.attr in _ITEM_MUTATORS and \
+                    isinstance(c.func.value, ast.Subscript) and \
+                    chain(c.func.value.value) == name:
+                yield v, name, c
+                break
+            if isinstance(c, (ast.Assign, ast.AugAssign)):
+                tg = c.targets[0] if isinstance(c, ast.Assign) else c.target
+                if isinstance(tg, ast.Subscript) and isinstance(
+                        tg.value, ast.Subscript) and \
+                        chain(tg.value.value) == name:
+                    yield v, name, c
+                    break
